@@ -4,6 +4,7 @@ from typing import List, Set
 
 from pyopenapi_gen import IRSchema, IRSpec
 from pyopenapi_gen.context.render_context import RenderContext
+from pyopenapi_gen.core.http_status_codes import HTTP_EXCEPTION_NAMES, get_exception_class_name
 from pyopenapi_gen.core.loader.schemas.extractor import extract_inline_array_items, extract_inline_enums
 from pyopenapi_gen.core.utils import NameSanitizer
 from pyopenapi_gen.core.writers.code_writer import CodeWriter
@@ -12,6 +13,20 @@ from pyopenapi_gen.visit.model.model_visitor import ModelVisitor
 # Removed OPENAPI_TO_PYTHON_TYPES, FORMAT_TYPE_MAPPING, and MODEL_TEMPLATE constants
 
 logger = logging.getLogger(__name__)
+
+# Names the generated endpoint modules import and use themselves: typing constructs, core classes and the exception
+# aliases (`class RulesClientProtocol(Protocol)`, `raise NotFoundError(response=response)`). The model imports are
+# written after them, so a model class of the same name would take their place in every module that uses the model.
+ENDPOINT_MODULE_NAMES = {
+    "AsyncIterator",
+    "ClientError",
+    "DataclassSerializer",
+    "HttpTransport",
+    "Literal",
+    "Protocol",
+    "ServerError",
+    "Union",
+} | {get_exception_class_name(code) for code in HTTP_EXCEPTION_NAMES}
 
 
 class ModelsEmitter:
@@ -353,6 +368,8 @@ class ModelsEmitter:
 
             # 1. Determine unique class name (schema_for_naming.generation_name)
             base_class_name = NameSanitizer.sanitize_class_name(original_schema_name)
+            if base_class_name in ENDPOINT_MODULE_NAMES:
+                base_class_name += "_"  # like the reserved names: Protocol_, NotFoundError_
             final_class_name = base_class_name
             class_suffix = 1
             while final_class_name in assigned_class_names:
